@@ -249,6 +249,7 @@ func (r *reader) Position() (int, Segment) {
 
 func (r *reader) SetPosition(line int, pos Segment) {
 	r.lineOffset = -1
+	r.peekedLine = nil
 	r.line = line
 	r.pos = pos
 }
